@@ -49,6 +49,7 @@ class Contract:
     func_args: ast.arguments
     context: dict[str, ast.stmt]
     line: int
+    inherited: bool
 
     def __init__(
         self,
@@ -58,6 +59,7 @@ class Contract:
         func_args: ast.arguments,
         context: dict[str, ast.stmt] | None = None,
         line: int = 0,
+        inherited: bool = False,
     ) -> None:
         self.args = tuple(args)
         self.kwargs = tuple(kwargs)
@@ -65,6 +67,7 @@ class Contract:
         self.func_args = func_args
         self.context = context or dict()
         self.line = line
+        self.inherited = inherited
 
     @cached_property
     def validator(self) -> ast.AST:
